@@ -47,6 +47,9 @@ def cover(e):
             cs.append("xcfg:panic-agreement")
     elif e["op"] == "serde":
         cs.append("serde:" + e["ty"])
+    elif e["op"] in ("bytes", "frombytes"):
+        if e["op"] == "frombytes" and e["bin"] and e["bin"][-1] == 0x80:
+            cs.append("frombytes:top-byte-0x80")
     elif e["op"].startswith("decode"):
         cs.append("decode:%s:%s" % (e.get("note", "json"), e["out"]["k"]))
     return cs
@@ -98,7 +101,7 @@ def run(ctx):
                     "and the serde driver. The binary integer format is specified byte for byte (SerdeDef) without reference to a word size.",
         required_cover=["xcfg:C01", "xcfg:C02", "xcfg:C09", "xcfg:serde", "xcfg:panic-agreement", "serde:U", "serde:I", "serde:F2", "serde:F10",
                         "serde:R", "serde:X", "decode:zero-denominator:err", "decode:unreduced:ok", "decode:mutated:err", "decode:mutated:ok",
-                        "decode:json:err", "decode:json:ok"] + ["def:%s:%s" % (f, c) for f in FAMS for c in CFGS])
+                        "decode:json:err", "decode:json:ok", "op:bytes", "op:frombytes", "frombytes:top-byte-0x80"] + ["def:%s:%s" % (f, c) for f in FAMS for c in CFGS])
 
 
 def selftest(ctx):
